@@ -30,7 +30,9 @@ RULE = ('unit: float matrices (integer counts, all-zero rows, single column, '
         'explicit small HDF5 chunks for is_data_ge_zero; CellByGeneMatrix '
         'chunk preparation incl. duplicate/unknown/miscounted genes. '
         'pipeline: generated problems (<=12 cells, <=15 genes, depth<=3, '
-        'integer counts with positive row sums) x relations declared / scale '
+        'integer counts with positive row sums; also stored as '
+        'uint8/uint16/int16/int32/uint32 dense/csr/csc with per-cell totals '
+        'beyond the dtype range) x relations declared / scale '
         '/ gene-permutation (raw and log2CPM) / extra-genes / negative (3 '
         'encodings x 4 dtypes). non-trivial = tree with >=2 leaves and a '
         'non-identity variant (pipeline), a positive-sum row with >=2 '
@@ -51,6 +53,7 @@ ASSUMPTIONS = ['float relations (declared, scale) are compared with '
 
 FLOAT_DTYPES = ['float32', 'float64']
 NEG_DTYPES = ['float32', 'float64', 'int32', 'int64']
+INT_DTYPES = ['uint8', 'uint16', 'int16', 'int32', 'uint32']
 ENCODINGS = ['dense', 'csr', 'csc']
 
 
@@ -72,8 +75,13 @@ def check_cpm(ctx, d):
     k = np.array(d['k'], dtype=np.float64)
     label = d.get('label', 'replay')
     ctx.count('cpm:' + label)
+    # the dtype the raw counts are STORED in (narrow integers: the row total
+    # may exceed the dtype's range); the scaled copy is always float64
+    store = np.dtype(d.get('dtype', 'float64'))
+    if store != np.float64:
+        ctx.count('cpm:dtype=' + store.name)
     with np.errstate(all='ignore'):
-        out = np.array(convert_to_cpm(X.copy()))
+        out = np.array(convert_to_cpm(X.astype(store)), dtype=np.float64)
         out_k = np.array(convert_to_cpm((X.transpose() * k).transpose()))
     nonneg = bool((X >= 0).all())
     nontriv = any(r.sum() > 0 and (r != 0).sum() >= 2 for r in X) \
@@ -152,8 +160,15 @@ def gen_cpm(rng, nprng, i):
     n = rng.randint(1, 5)
     g = 1 if i % 11 == 0 else rng.randint(1, 6)
     mode = ['counts', 'counts', 'sparse-counts', 'float', 'float32', 'wide',
-            'tiny', 'huge', 'signed'][i % 9]
-    if mode == 'counts':
+            'tiny', 'huge', 'signed', 'deep-int'][i % 10]
+    dtype = 'float64'
+    if mode == 'deep-int':
+        # raw counts stored in a narrow integer dtype, a few genes with
+        # counts near the dtype's maximum: the cell total exceeds the range
+        dtype = INT_DTYPES[(i // 10) % len(INT_DTYPES)]
+        X = U.deep_counts(rng, nprng, n, max(g, 2), dtype)
+        g = X.shape[1]
+    elif mode == 'counts':
         X = nprng.integers(0, 50, (n, g)).astype(float)
     elif mode == 'sparse-counts':
         X = nprng.integers(0, 5000, (n, g)).astype(float)
@@ -178,7 +193,10 @@ def gen_cpm(rng, nprng, i):
         k = [float(rng.randint(1, 1000)) for _ in range(n)]
     else:
         k = [float(10.0 ** rng.uniform(-3, 3)) for _ in range(n)]
-    return {'kind': 'cpm', 'X': X.tolist(), 'k': k, 'label': mode}
+    if mode == 'deep-int':
+        k = [float(rng.randint(2, 9)) for _ in range(n)]
+    return {'kind': 'cpm', 'X': X.tolist(), 'k': k, 'label': mode,
+            'dtype': dtype}
 
 
 # ===========================================================================
@@ -386,7 +404,10 @@ def check_node(ctx, d):
         X = X.reshape((len(d['X']), d.get('width', 0)))
     label = d.get('label', 'replay')
     ctx.count('node:%s/%s' % (norm, label))
-    chunk, node = _impl_node(X, genes, norm, am, nm)
+    store = np.dtype(d.get('dtype', 'float64'))
+    if store != np.float64:
+        ctx.count('node:dtype=' + store.name)
+    chunk, node = _impl_node(X.astype(store), genes, norm, am, nm)
     ctx.count('node:impl=%s' % (node[0] if node[0] == 'ok' else node[1]))
     ctx.case(jkey('node', d['X'], genes, norm, am, nm)
              if (node[0] != 'ok' or len(nm) >= 1) else None,
@@ -567,8 +588,15 @@ def gen_node(rng, nprng, i):
     names = ['G%d' % j for j in rng.sample(range(40), g)]
     norm = 'raw' if i % 2 == 0 else 'log2CPM'
     integer = False
+    dtype = 'float64'
     if norm == 'raw':
-        if i % 4 == 0:
+        if i % 8 == 4 and n >= 1:
+            dtype = INT_DTYPES[(i // 8) % len(INT_DTYPES)]
+            g = max(g, 2)
+            names = ['G%d' % j for j in rng.sample(range(40), g)]
+            X = U.deep_counts(rng, nprng, n, g, dtype)
+            integer = True
+        elif i % 4 == 0:
             X = nprng.integers(0, 60, (n, g)).astype(float)
             integer = True
         else:
@@ -583,7 +611,7 @@ def gen_node(rng, nprng, i):
                                     len(am))) if am else []
     d = {'kind': 'node', 'X': X.tolist(), 'width': g, 'genes': names,
          'norm': norm, 'allMarkers': am, 'nodeMarkers': nm,
-         'integer': integer, 'label': 'valid'}
+         'integer': integer, 'label': 'valid', 'dtype': dtype}
     r = rng.random()
     if r < 0.55:
         perm = list(range(g))
@@ -764,6 +792,9 @@ def check_pipeline(ctx, d, scratch, cache=None, skipped=None):
 
     b = d['base']
     v = d['variant']
+    if b.get('dtype', 'float64') != 'float64':
+        ctx.count('pipeline:%s/stored-%s/%s' % (rel, b['dtype'],
+                                                b.get('encoding', 'dense')))
     rb = _run_one(scratch, stats, markers, b, cfg, 'base', cache)
     if not rb['ok'] or not isinstance(rb['json'], dict) or \
             'results' not in rb['json']:
@@ -918,6 +949,18 @@ def gen_pipeline_cases(ctx, rng, i):
     Xs = X * k[:, None]
     out.append(case('scale', base_raw, q(Xs, genes, 'raw'), c1,
                     nontrivial=bool((k != 1).any())))
+    # a'/b'. the same two relations for raw counts STORED in a narrow
+    # integer dtype with per-cell totals beyond the dtype's range (deep
+    # cells); the normalised / scaled copies are computed in float64
+    dt = INT_DTYPES[i % len(INT_DTYPES)]
+    enc_i = ENCODINGS[(i // len(INT_DTYPES) + i) % 3]
+    Xd = U.deepen(rng, X, genes, prob['markers'], dt)
+    base_int = q(Xd, genes, 'raw', enc_i, dt)
+    out.append(case('declared', base_int, q(log2cpm(Xd), genes, 'log2CPM'),
+                    c1))
+    ki = np.array([float(rng.randint(2, 9)) for _ in range(n)])
+    out.append(case('scale', base_int, q(Xd * ki[:, None], genes, 'raw'),
+                    c1))
     # c. gene permutation, raw and normalised, any factor
     enc = ENCODINGS[i % 3]
     c2 = cfg(round(rng.uniform(0.3, 0.95), 2))
